@@ -4,6 +4,7 @@ import (
 	"context"
 	"time"
 
+	"github.com/attestantio/vouch/internal/vnd"
 	"github.com/attestantio/vouch/services/scheduler"
 )
 
@@ -94,13 +95,11 @@ func (s *Scheduler) ListJobs(_ context.Context) []string { return s.Existing }
 
 // Count returns how many recorded jobs carry the name.
 func (s *Scheduler) Count(name string) int {
-	n := 0
+	n := uint64(0)
 	for _, j := range s.Jobs {
-		if j.Name == name {
-			n++
-		}
+		n += vnd.IteU64(j.Name == name, 1, 0) // eager: no fork per job
 	}
-	return n
+	return int(n)
 }
 
 // Find returns the first recorded job with the name.
